@@ -6,6 +6,7 @@ import (
 	"reflect"
 	"runtime/debug"
 	"sort"
+	"strconv"
 	"strings"
 	"time"
 
@@ -134,6 +135,24 @@ func (r *caseRun) provOf(idx int) *ProvDesc {
 
 func (r *caseRun) dumpLines(d nject.VerifDump) {
 	r.logf("dump %s real=%d vcount=%d invokeIndex=%d hasinit=%d n=%d", d.Stage, b2i(d.Real), d.VCount, d.InvokeIndex, b2i(d.HasInit), len(d.Funcs))
+	byID := map[int32]int{}
+	for _, f := range d.Funcs {
+		byID[f.ID] = r.idxOf(f)
+	}
+	depList := func(ids []int32) string {
+		if len(ids) == 0 {
+			return "-"
+		}
+		out := make([]string, len(ids))
+		for i, id := range ids {
+			if x, ok := byID[id]; ok {
+				out[i] = strconv.Itoa(x)
+			} else {
+				out[i] = "?"
+			}
+		}
+		return strings.Join(out, ",")
+	}
 	for pos, f := range d.Funcs {
 		idx := r.idxOf(f)
 		ei := 0
@@ -162,12 +181,12 @@ func (r *caseRun) dumpLines(d nject.VerifDump) {
 		if len(flags) > 0 {
 			fl = strings.Join(flags, ",")
 		}
-		r.logf("f %d id=%d class=%s group=%s inc=%d ret=%s out=%s in=%s recv=%s byp=%s drm=%s urm=%s brm=%s zs=%s zi=%s ei=%d flags=%s origin=%s index=%d why=%s",
+		r.logf("f %d id=%d class=%s group=%s inc=%d ret=%s out=%s in=%s recv=%s byp=%s drm=%s urm=%s brm=%s zs=%s zi=%s ei=%d flags=%s uses=%s usedby=%s origin=%s index=%d why=%s",
 			pos, idx, f.Class, f.Group, b2i(f.Include),
 			fmtCodes(codesOf(f.Flows[0])), fmtCodes(codesOf(f.Flows[1])), fmtCodes(codesOf(f.Flows[2])),
 			fmtCodes(codesOf(f.Flows[3])), fmtCodes(codesOf(f.Flows[4])),
 			fmtRmap(r, f.DownRmap), fmtRmap(r, f.UpRmap), fmtRmap(r, f.BypassRmap),
-			fmtCodes(sortedCodes(f.MustZeroSkipped)), fmtCodes(sortedCodes(f.MustZeroInner)), ei, fl,
+			fmtCodes(sortedCodes(f.MustZeroSkipped)), fmtCodes(sortedCodes(f.MustZeroInner)), ei, fl, depList(f.Uses), depList(f.UsedBy),
 			strings.ReplaceAll(orDash(f.Origin), " ", "_"), f.Index, strings.ReplaceAll(orDash(oneLine(f.WhyIncluded)+"|"+clipReason(f.CannotInclude)), " ", "_"))
 	}
 	if d.Stage == "S7" {
